@@ -2,21 +2,21 @@
 (* The relations of FieldMachine instantiated with small primes of the same shapes as the real ones
    (p = 3 mod 4, p = 5 mod 8, p = 1 mod 8), checked EXHAUSTIVELY: they hold for the true field operations
    (so the trace spec accepts every correct implementation: no false alarm) and they pin the result down
-   (a wrong destination residue is rejected), including the Inv / square-root / non-residue-certificate conventions. *)
+   (a wrong destination residue is rejected), including the square-root / non-residue-certificate convention. *)
 EXTENDS Integers, FiniteSets, TLC
 Primes == {7, 13, 17}                      \* 7 = 3 mod 4 ; 13 = 5 mod 8 ; 17 = 1 mod 8
 Fp(p) == 0..(p-1)
-IsQR(x, p) == \E w \in Fp(p) : (w*w) % p = x % p
+IsQR(x, p) == \E w \in Fp(p) : ((w*w) % p) = (x % p)
 NonRes(p) == CHOOSE n \in 2..(p-1) : ~IsQR(n, p)
-Axioms(p) == /\ \A a, b, c \in Fp(p) : ((a*b) % p * c) % p = (a * ((b*c) % p)) % p /\ (a * ((b+c) % p)) % p = ((a*b) % p + (a*c) % p) % p
-             /\ \A a \in Fp(p) \ {0} : \E i \in Fp(p) : (a*i) % p = 1
+Axioms(p) == /\ \A a, b, c \in Fp(p) : ((((a*b) % p) * c) % p) = ((a * ((b*c) % p)) % p) /\ ((a * ((b+c) % p)) % p) = ((((a*b) % p) + ((a*c) % p)) % p)
+             /\ \A a \in Fp(p) \ {0} : \E i \in Fp(p) : ((a*i) % p) = 1
 \* congruence with quotient hints, as in BigNat!Congr, on plain integers
 CongrI(a, b, p) == \E qa \in 0..(a \div p), qb \in 0..(b \div p) : a - qa*p = b - qb*p /\ a - qa*p < p /\ a - qa*p >= 0
 Sound(p) == \A x, y \in 0..(2*p) :       \* operands may be unreduced
-   /\ \A z \in 0..(2*p) : CongrI(x*y, z, p) <=> (z % p = (x*y) % p)                 \* "mul" accepts exactly the right residue class
-   /\ \A z \in 0..(2*p) : CongrI(x + (16*p - y), z, p) <=> (z % p = (x + 16*p - y) % p)   \* "sub" through a multiple of p
+   /\ \A z \in 0..(2*p) : CongrI(x*y, z, p) <=> ((z % p) = ((x*y) % p))                 \* "mul" accepts exactly the right residue class
+   /\ \A z \in 0..(2*p) : CongrI(x + (16*p - y), z, p) <=> ((z % p) = ((x + 16*p - y) % p))   \* "sub" through a multiple of p
 Certificates(p) == \A x, y \in Fp(p) \ {0} :
    LET n == NonRes(p) IN
-   (\E z \in Fp(p) : (z*z*y) % p = x) # (\E w \in Fp(p) : (w*w*y) % p = (n*x) % p)
+   (\E z \in Fp(p) : ((z*z*y) % p) = x) # (\E w \in Fp(p) : ((w*w*y) % p) = ((n*x) % p))
 ASSUME \A p \in Primes : Axioms(p) /\ Sound(p) /\ Certificates(p)
 ====
